@@ -310,8 +310,9 @@ class Engine:
         self.exhausted = False
         # per-path state
         self._solver: z3.Solver = z3.Solver()
-        self._prefix: List[Tuple[bool, bool]] = []
-        self._trace: List[Tuple[bool, bool, str]] = []  # (taken, alt_feasible, key)
+        self._prefix: List[Tuple[bool, bool, Any]] = []
+        self._trace: List[Tuple[bool, bool, Any]] = []  # (taken, alt_feasible, key)
+        self.nondeterminism = 0
         self._vars: Dict[str, Any] = {}
         self._model: Any = None
         self._decided: Dict[int, bool] = {}
@@ -480,7 +481,7 @@ class Engine:
                 res = out
         return res
 
-    def decide(self, cond: Any) -> bool:
+    def decide(self, cond: Any, payload: Any = None) -> bool:
         cond = z3.simplify(cond)
         if z3.is_true(cond):
             return True
@@ -494,11 +495,16 @@ class Engine:
         i = len(self._trace)
         if i >= self.max_decisions:
             raise Inconclusive("decision budget per path exceeded")
-        key = ""
+        key = cond.hash()   # structural hash: a replayed decision must be about the same condition
         if i < len(self._prefix):
-            taken, alt = self._prefix[i]
+            taken, alt, want, _ = self._prefix[i]
+            if want is not None and want != key:
+                # the harness did not repeat itself: replaying the recorded branch directions against other
+                # conditions would silently drop or invent paths
+                self.nondeterminism += 1
+                raise Inconclusive(f"nondeterministic harness: decision #{i} is now about {str(cond)[:120]}")
             self._add(cond if taken else z3.Not(cond))
-            self._trace.append((taken, alt, key))
+            self._trace.append((taken, alt, key, payload))
             self._decided[cid] = taken != neg
             self._keep.append(cond)
             return taken
@@ -538,7 +544,7 @@ class Engine:
             raise Infeasible()
         self._solver.add(cond if taken else z3.Not(cond))
         self._model = mt if taken else mf
-        self._trace.append((taken, alt, key))
+        self._trace.append((taken, alt, key, payload))
         self._decided[cid] = taken != neg
         self._keep.append(cond)  # keeps the AST (and hence its id) alive for the rest of the path
         return taken
@@ -547,14 +553,26 @@ class Engine:
         e = z3.simplify(e)
         if z3.is_int_value(e) or z3.is_bv_value(e):
             return e.as_long()
-        if self._model is None:
-            r, m = self._sat_model()
-            if r != z3.sat:
-                raise Inconclusive("realise: path condition not sat")
-            self._model = m
-        v = self._model.eval(e, model_completion=True)
-        val = v.as_long()
-        if self.decide(e == v):
+        # Replay determinism: the value tried first comes from a model, and models are not
+        # repeatable between the original run (two queries per decision) and its replay (assertions
+        # only).  The value is therefore recorded with the decision and re-used when the decision
+        # is replayed; otherwise a replay would negate `e == other value` and lose / repeat values.
+        i = len(self._trace)
+        ekey = e.hash()
+        val: Optional[int] = None
+        if i < len(self._prefix):
+            pay = self._prefix[i][3]
+            if pay is not None and pay[0] == ekey:
+                val = pay[1]
+        if val is None:
+            if self._model is None:
+                r, m = self._sat_model()
+                if r != z3.sat:
+                    raise Inconclusive("realise: path condition not sat")
+                self._model = m
+            val = self._model.eval(e, model_completion=True).as_long()
+        v = z3.BitVecVal(val, e.size()) if z3.is_bv(e) else z3.IntVal(val)
+        if self.decide(e == v, payload=(ekey, val)):
             return val
         # explored later with e != v: realise again under the new constraint
         return self.realise(e)
@@ -579,7 +597,7 @@ class Engine:
         """Run `harness(engine)` over every feasible path."""
         results: List[PathResult] = []
         t_end = time.monotonic() + self.max_seconds
-        prefix: List[Tuple[bool, bool]] = []
+        prefix: List[Tuple[bool, bool, Any]] = []
         self.exhausted = False
         while True:
             if self.paths >= self.max_paths or time.monotonic() > t_end:
@@ -626,4 +644,4 @@ class Engine:
             if j < 0:
                 self.exhausted = True
                 return results
-            prefix = [(t, a) for (t, a, _) in tr[:j]] + [(not tr[j][0], False)]
+            prefix = list(tr[:j]) + [(not tr[j][0], False, tr[j][2], tr[j][3])]
